@@ -694,6 +694,8 @@ func (g *G) Op() Op {
 		op.Q = q
 	case "query":
 		op.Q = g.Query()
+	case "tick":
+		op.Ms = 100 * (1 + g.uni(12, "tickms"))
 	case "snapshot":
 		q := g.Query()
 		q.Limit, q.Reverse = nil, false
